@@ -110,7 +110,7 @@ def plainStreamB (s : List Chunk) : Bool := Strax.LawAbiding s && s.all fun c =>
 def rechunkRun (s : List Chunk) : Except Err (List Chunk) :=
   if plainStreamB s then rechunkAll (-1) ⟨true, false, none⟩ s else .error .other
 
-/-- **rechunk-on-save is a transport** (C07 `rechunk_stream` / `rechunk_aux`) -/
+/-- **rechunk-on-save is a transport** (C07 `rechunk_stream_partial` / `rechunk_aux`) -/
 def Transport.rechunk : Transport :=
   Transport.ofSpec rechunkRun (by
     intro inp out _ h
